@@ -27,6 +27,12 @@ def run(ctx):
     ok, log = ctx.extract("connlegacy", ["lean/KafkaVerif/Gen/ConnLegacy.lean"])
     if not ok:
         broken.append({"kind": "obligation", "name": "translator go/extract connlegacy", "detail": log[-1500:]})
+        # the code left the translatable subset: keep searching for a failing input with the last committed model
+        # (the model of the unchanged code) so that the report carries a concrete replay, not only the broken obligation
+        import subprocess, os
+        subprocess.run(["git", "checkout", "--", "lean/KafkaVerif/Gen/ConnLegacy.lean"],
+                       cwd=os.path.dirname(os.path.dirname(os.path.abspath(__file__))), capture_output=True)
+        ctx.notes.append("translator failed: correspondence run against the committed Gen/ConnLegacy.lean")
     res = ctx.prove(MODULE)
     if not res["ok"]:
         broken.append({"kind": "obligation", "theorems": res["failed"], "detail": res["reasons"][:10]})
